@@ -586,7 +586,7 @@ def n_anchors(kinds):
               "theorems registered: tags are cleared at document end, load clears anchors per document; the scanner-state reset theorem is not proved"])
 def c15(tier, rng):
     res = Result()
-    res.rule = "pairs (A, B) of accepted streams from the suite, line soups and soups, A ending in a line break; 3- and 4-tuples; non-trivial = both streams contain a document; distinct by (A, B)"
+    res.rule = "pairs (A, B) of accepted streams from the suite, line soups, soups and rendered streams, A ending in a line break; 3- and 4-tuples; state-leak probes: 2500 nested flow collections with explicit/empty keys at every position x 20 state-sensitive documents; non-trivial = both streams contain a document; distinct by (A, B)"
     res.corr_ops = ['evt str on A ++ "...\\n" ++ B']
     pool_src = [r['yaml'] for r in load_suite() if not r['fail']] + line_soups(rng.fork('l'), 3000 if tier == 'quick' else 30000) + soups(rng.fork('s'), 3000 if tier == 'quick' else 30000, 10)
     import render as _R
@@ -597,13 +597,46 @@ def c15(tier, rng):
     # a NUL is the Input contract's end-of-input signal: a text with an embedded NUL is not a stream that can be continued
     pool = [(t, ev_full(l)[0]) for t, l in zip(pool_src, impl0) if l.endswith(' ; DONE') and '\0' not in t]
     enders = [p for p in pool if p[0].endswith('\n') and '\r' not in p[0][-2:]]
+    # state-leak probes: A's that drive the scanner's flow / key / indentation state through unusual
+    # transitions (explicit and empty keys at every position of nested flow collections, compact block
+    # forms), each followed by every B of a fixed set of documents that are sensitive to left-over state
+    lr = rng.fork('leak')
+    def fnode(d):
+        x = lr.below(10)
+        if d <= 0 or x < 3:
+            return lr.choice(['a', '"q"', 'b c', '&x a', '*x' if False else 'a'])
+        def entry():
+            y = lr.below(9)
+            n1, n2 = fnode(d - 1), fnode(d - 1)
+            return [n1, '? ' + n1, '? ' + n1 + ': ' + n2, n1 + ': ' + n2, ': ' + n2, '?', n1 + ':', '? ' + n1 + ':', n1][y]
+        k = lr.randint(0, 3)
+        body = ', '.join(entry() for _ in range(k)) + (',' if k and lr.chance(1, 6) else '')
+        return ('[' + body + ']') if x < 7 else ('{' + body + '}')
+    leakA = []
+    for _ in range(2500 if tier == 'quick' else 40000):
+        t = fnode(3)
+        pre = lr.choice(['', '', '- ', 'k: ', '? ', '- - ', 'k:\n  - ', '--- '])
+        leakA.append(pre + t + '\n')
+    leakA += ['[[? a], b]\n', '[[c, ? a: 1], b]\n', '{a: [? b], c: d}\n', '[? [? a], b]\n', '- [[?], a]\n', '[[a: b, ? c], [d]]\n']
+    probesB = ['k: v\n', 'a: 1\nb: 2\n', '- a\n- b\n', '? a\n: b\n', '[a: 1]\n', '[ : x ]\n', '{a: 1}\n', '[a, b]\n', 'a\n', '"q": 1\n', '- k: v\n', 'k:\n  - v\n',
+               '|\n x\n', '&a x\n', '!t x\n', 'a: [b: c]\n', '[? a, : y]\n', '- - a\n', 'a:\n- b\n', "'s'\n"]
+    la = run_impl([f'evt str 128 0 {hx(t)}' for t in leakA + probesB])
+    leak_pool = [(t, ev_full(l)[0]) for t, l in zip(leakA + probesB, la) if l.endswith(' ; DONE')]
+    leak_a = [p for p in leak_pool[:len(leakA)] if p[0] in set(leakA)]
+    leak_b = [p for p in leak_pool if p[0] in set(probesB)]
     pr = rng.fork('pairs')
-    cases = []
+    cases = [[a, b] for a in leak_a for b in leak_b]
+    if tier == 'quick':
+        # every probe against every A would be ~50k pairs: keep all A's, rotate through the probes
+        cases = [[a, leak_b[(i + j) % len(leak_b)]] for i, a in enumerate(leak_a) for j in range(6)]
     N = 20000 if tier == 'quick' else 400000
     for _ in range(N):
         k = 2 if pr.chance(8, 10) else pr.randint(3, 4)
         parts = [pr.choice(enders) for _ in range(k - 1)] + [pr.choice(pool)]
         cases.append(parts)
+    # three documents: a leak must survive an insensitive document in between
+    for i, a in enumerate(leak_a[:1500]):
+        cases.append([a, next(p for p in leak_b if p[0] == 'a\n'), leak_b[i % len(leak_b)]])
     reqs = []
     for parts in cases:
         text = '...\n'.join(p[0] for p in parts)
@@ -2103,10 +2136,10 @@ def suite_expected(tree):
               "theorems registered: parser-level (token language of collections -> events); the scanner side of C03 rests on correspondence + this oracle"])
 def c03(tier, rng):
     res = Result()
-    res.rule = "streams rendered from random abstract trees (depth <= 4; block/flow, compact/next-line, explicit keys, sequences at the indentation of their key, comments, blank lines, node properties, aliases, 1-2 documents, markers, %YAML) + the non-error yaml-test-suite cases; non-trivial = at least one collection; distinct by text"
+    res.rule = "systematic nested layouts (6 parents x indentation step 1-3 x 15 kinds of first key/item x 1-2 pairs); streams rendered from random abstract trees (depth <= 4; block/flow, compact/next-line, explicit keys, sequences at the indentation of their key, comments, blank lines, node properties, aliases, 1-2 documents, markers, %YAML) + the non-error yaml-test-suite cases; non-trivial = at least one collection; distinct by text"
     res.corr_ops = ['evt str (model pipeline) on every rendered stream']
     r = rng.fork('c03')
-    cases = [R.render_stream(r) for _ in range(20000 if tier == 'quick' else 500000)]
+    cases = R.nested_layout_cases() + [R.render_stream(r) for _ in range(20000 if tier == 'quick' else 500000)]
     reqs = [f'evt str 128 0 {hx(t)}' for t, _ in cases]
     suite = [c for c in load_suite() if not c['fail'] and c['tree']]
     sreqs = [f'evt str 128 0 {hx(c["yaml"])}' for c in suite]
@@ -2146,7 +2179,7 @@ def c03(tier, rng):
               "theorems registered: escape table and hex-escape decoding at function level; see Props/C04.lean"])
 def c04(tier, rng):
     res = Result()
-    res.rule = "target strings over a tricky-character alphabet (length <= 3 exhaustively over 12 symbols, random up to 16 over 29) x style x random per-character escape/literal choice, fold placement, continuation indentation and trailing padding x 7 syntactic contexts; non-trivial = presentation differs from the target; distinct by document text"
+    res.rule = "systematic folds (four words x every combination of joins: blank runs, folds to a space or to 1-2 line feeds, trailing blanks/tab before the break, blank-line contents) x 3 styles x 3-4 contexts; target strings over a tricky-character alphabet (length <= 3 exhaustively over 12 symbols, random up to 16 over 29) x style x random per-character escape/literal choice, fold placement, continuation indentation and trailing padding x 7 syntactic contexts; non-trivial = presentation differs from the target; distinct by document text"
     res.corr_ops = ['evt str on every presentation']
     r = rng.fork('c04')
     A12 = ['a', ' ', '\n', ':', '#', "'", '"', '\\', 'é', '-', '\t', ',']
@@ -2176,6 +2209,16 @@ def c04(tier, rng):
                 continue
             doc, idx = R.in_context(ctx, pres)
             cases.append((tg_, style, ctx, doc, idx))
+    # systematic folds: four words, every combination of joins, in three contexts
+    fam = []
+    for style in 'PSD':
+        for ctx, ci in (('top', 1), ('value', 2), ('flowitem', 1)) + ((('top', 0),) if style != 'P' else ()):
+            for pres, tg_ in R.fold_family(style, ci):
+                doc, idx = R.in_context(ctx, pres)
+                fam.append((tg_, style, ctx, doc, idx))
+    if tier == 'quick':
+        fam = fam[::3] + [c for c in fam if c[0].count('\n') >= 1 and '  ' not in c[0]][::2]
+    cases = fam + cases
     reqs = [f'evt str 128 0 {hx(d)}' for _, _, _, d, _ in cases]
     impl = run_impl(reqs)
     nm = len(reqs) if tier == 'thorough' else 12000
